@@ -173,12 +173,43 @@ def C07_4(ctx, facts):
     adt = facts.adt("server::conn::drivers::GracefulConnectionDriver")
     ty = {fl["name"]: fl["ty"] for fl in adt["variants"][0]["fields"]} if adt else {}
     R = roles(facts)
-    ctx.check("Fuse<" in ty.get(R["d_shutdown"], ""), "GracefulConnectionDriver|fused",
-              "the driver's shutdown future is fused (graceful_shutdown is requested once; afterwards it is never Ready again)", "shutdown field has type %s" % ty.get(R["d_shutdown"]))
     f = facts.unit(facts.method("server::conn::drivers::GracefulConnectionDriver", "Future", "poll"))
     ctx.touched(f)
     cp = polls_of_field(f, R["d_conn"])
     shp = polls_of_field(f, R["d_shutdown"])
+    # the shutdown future is never polled again once it was Ready (graceful_shutdown is requested once): either it is fused, or
+    # it sits in an Option that is emptied on the Ready edge before anything else can poll it
+    sty = ty.get(R["d_shutdown"], "")
+    if "Fuse<" in sty:
+        ctx.ok("GracefulConnectionDriver|fused", "the driver's shutdown future is fused (after Ready it answers Pending without being polled)")
+    elif "Option<" in sty:
+        clears = set()
+        for b in sorted(f.live):
+            t = f.term(b)
+            if t["k"] == "call":
+                c = CallSite(f, b, t)
+                if c.matches(r"Pin.*::set$|Option.*::take$|mem::(take|replace)$") and R["d_shutdown"] in pool2._fields_of_ref(f, c.args[0]):
+                    clears.add(b)
+            for s_ in f.stmts(b):
+                is_none = s_["k"] == "assign" and s_["r"]["k"] == "agg" and s_["r"].get("v") == "None"
+                if s_["k"] == "assign" and s_["r"]["k"] == "use" and s_["p"]["p"]:
+                    from mir import op_place
+                    q = op_place(s_["r"]["o"])
+                    d_ = f.unique_def(q["l"]) if q is not None and not q["p"] else None
+                    is_none = bool(d_ and d_[0] == "stmt" and d_[3]["r"]["k"] == "agg" and d_[3]["r"].get("v") == "None")
+                if is_none and s_["p"]["p"]:
+                    named = any(isinstance(e, dict) and e.get("n") == R["d_shutdown"] for e in s_["p"]["p"])
+                    through = s_["p"]["p"] == ["*"] and R["d_shutdown"] in pool2._fields_of_ref(f, {"c": {"l": s_["p"]["l"], "p": []}})
+                    if named or through:
+                        clears.add(b)
+        ok = bool(clears)
+        for (a, b) in f.edges_where(L_poll(f, True, {x.bb for x in shp})):
+            o1, w = f.must_pass(b, sorted({x.bb for x in shp} | set(f.returns)), clears)
+            ok = ok and o1
+        ctx.check(ok, "GracefulConnectionDriver|fused", "the shutdown future sits in an Option that is emptied on its Ready edge before it could be polled again or the call returns",
+                  "the shutdown future (type %s) can be polled again after it was Ready" % sty, f.where())
+    else:
+        ctx.bad("GracefulConnectionDriver|fused", "the shutdown future (type %s) is neither fused nor kept in an Option emptied on completion: it can be polled after it was Ready" % sty)
     gs = [c for c in f.calls() if norm(c.decl or c.name).endswith("::graceful_shutdown")]
     fin = [c for c in f.calls("server::CloseSender::send")]
     ctx.floor("GracefulConnectionDriver::poll|conn-poll", len(cp), 1, "polls of the connection")
@@ -211,8 +242,8 @@ def C07_4(ctx, facts):
         r = s["r"]
         ops = dict(zip(r["fields"], r["ops"]))
         rs = n.roots(ops[R["d_shutdown"]])
-        ctx.check(any(x.kind == "arg" and "Close" in n.locals[x.index] for x in rs) and any(x.kind == "call" and norm(x.site.name).endswith("::fuse") for x in rs),
-                  "GracefulConnectionDriver::new|fuse", "shutdown = shutdown.into_future().fuse()", "shutdown roots %s" % sorted(map(repr, sig(rs))), n.where(b))
+        ctx.check(any(x.kind == "arg" and "Close" in n.locals[x.index] for x in rs) and any(x.kind == "call" and norm(x.site.name).endswith(("::fuse", "::into_future")) for x in rs),
+                  "GracefulConnectionDriver::new|fuse", "the shutdown future is the given receiver's future (fused, or stored in the slot)", "shutdown roots %s" % sorted(map(repr, sig(rs))), n.where(b))
         ctx.check(any(x.kind == "arg" and n.locals[x.index].endswith("CloseSender") for x in n.roots(ops[R["d_finished"]])), "GracefulConnectionDriver::new|finished", "finished is the given sender", "finished differs", n.where(b))
         ctx.check(any(x.kind == "arg" for x in n.roots(ops[R["d_conn"]])), "GracefulConnectionDriver::new|conn", "conn wraps the given connection", "conn differs", n.where(b))
 
